@@ -57,7 +57,7 @@ def gen_pred(rng, succ_text):
     cpu = rng.choice(G_CPUS)
     L = ['\tcpu\t%s' % cpu]
     labels = re.findall(r'^([A-Za-z_][A-Za-z0-9_]{2,})', succ_text, re.M)
-    for _ in range(rng.randrange(1, 6)):
+    for _ in range(rng.randrange(4, 14)):
         k = rng.randrange(6)
         if k <= 2:
             L.append(rng.choice(STICKY))
